@@ -54,6 +54,11 @@ def gen_value(r, budget):
         s = str(v)
         if v > 0 and r.random() < 0.1:
             s = "+" + s
+        if r.random() < 0.15:      # decimal text with leading zeros ("0644", "-08") is still a decimal integer
+            v = r.choice([7, 8, 9, 10, 64, 644, 755, 2134, r.randint(0, 99999)]) * r.choice([1, 1, -1])
+            s = ("-" if v < 0 else "") + "0" * r.randint(1, 3) + str(abs(v))
+        elif r.random() < 0.04:    # what looks like a C hex literal converts like atoi does: the leading decimal digits
+            s, v = r.choice(["0x1F", "0X10", "0x"]), 0
         return s, s, "int", v
     if k < 0.80:
         mant = str(r.randint(0, 10 ** r.randint(1, 12)))
